@@ -20,6 +20,12 @@ theorem intInRange_iff (n : Int) : intInRange n = true ↔ InRange32 n := by
 theorem floatGuard_spec (c : FCls) : floatGuardRejects c = true ↔ c ≠ .finite := by
   cases c <;> simp [floatGuardRejects, floatRejectsFinite, floatRejectsInf, floatRejectsNaN]
 
+/-- The third obligation tied to the source: the `if / elif` chain of `coerce_int` that `coerceInt` mirrors branch by
+    branch (int — which includes bool —, float, None, str, anything else). Re-ordering, dropping or changing a branch re-opens it. -/
+theorem coerceInt_branches_spec :
+    coerceIntBranches = [("int", "identity"), ("float", "int-if-equal"), ("None", "raise"),
+                         ("str", "int10-else-integral-float"), ("else", "raise")] := by decide
+
 theorem floatChecked_ok {c : FCls} {r pv : PV} (h : floatChecked c r = .ok pv) : pv = r ∧ c = .finite := by
   unfold floatChecked at h
   split at h
